@@ -24,6 +24,9 @@ if REPO not in sys.path:
 import logging  # noqa: E402
 
 logging.getLogger("scapy.runtime").setLevel(logging.ERROR)
+from . import cover  # noqa: E402  (development aid, inert unless VERIF_COVER is set)
+
+cover.start()
 import tlexport.main as tmain  # noqa: E402  (preloaded once; children are forked from here)
 
 assert os.path.realpath(tmain.__file__).startswith(os.path.realpath(REPO) + os.sep), tmain.__file__
@@ -93,6 +96,7 @@ def run_tlexport(files, argv, child_setup=None, cpu=60, wall=900, cwd=None, outn
                 os.environ["TLEXPORT_VERIF_EVENTS"] = os.path.join(d, "_events")
                 if child_setup:
                     child_setup(d)
+                cbase = cover.child_base()
                 code = 0
                 try:
                     for r in runs:
@@ -109,6 +113,7 @@ def run_tlexport(files, argv, child_setup=None, cpu=60, wall=900, cwd=None, outn
                         fn()
                     except Exception:
                         pass
+                cover.child_dump(cbase, os.path.join(d, "_reach"))
                 sys.stdout.flush()
                 sys.stderr.flush()
             finally:
@@ -140,6 +145,7 @@ def run_tlexport(files, argv, child_setup=None, cpu=60, wall=900, cwd=None, outn
                     return f.read()
             except (FileNotFoundError, IsADirectoryError):
                 return None
+        cover.absorb(os.path.join(d, "_reach"))
         res = Result(status, [rd(n) for n in outnames], rd("_stdout"), rd("_stderr"), time.time() - t0, rd("_events"))
         if keep_dir:
             shutil.copytree(d, keep_dir, dirs_exist_ok=True)
